@@ -1,5 +1,5 @@
 """Texts for MANIFEST.json (per claimed property) and reasons for unclaimed ones."""
-HOOK_COMMITS = []
+HOOK_COMMITS = ["655337a", "c2b4681"]
 
 TEXT = {
  "C03": {
@@ -69,6 +69,43 @@ TEXT.update({
   "level": "Per VR class (AT, US/SS/UL/SL, LO, PN, OB/UN, empty and zero-item values) the solver shows for ALL symbolic payloads that the recorded serde event stream has the Annex F shape and carries exactly the stored values "
            "(AT: the 8 upper-case hex digits decoded from the real format template). Kani exceeded 24 GB on one element.",
   "note": "object-level key order/format, sequences, FL/FD and 64-bit VRs, serde_json's text layer and the base64 alphabet are outside; each case is cross-checked against the real serde_json text on a solver-chosen input",
+ },
+})
+
+TEXT.update({
+ "C08": {
+  "engine": "K",
+  "technique": "bounded model checking (Kani/CBMC) of AdaptiveVRLittleEndianDecoder::decode_header against the explicit / implicit decoders on arbitrary header bytes with a solver-chosen dictionary answer",
+  "level": "For ALL 24 (explicit) / 16 (implicit) header bytes and every dictionary answer (absent, Exact(any VR), Xs, Ox, Px, Lt) satisfying the statement's unambiguity condition the solver shows the "
+           "deciding header is read exactly as the correct decoder reads it; a leading item delimiter does not decide.",
+  "note": "headers after the deciding one (locked states) are NOT covered: two decodes through the state machine exceeded 30 GB / 23 min in CBMC; instantiated with a stub dictionary; reader wiring of flexible_decoding outside",
+ },
+ "C14": {
+  "engine": "K",
+  "technique": "bounded model checking (Kani/CBMC) of Tag::from_str on every valid UTF-8 string of each length 0-12 against an independent recogniser, and of Display for Tag through the real core::fmt into a fixed sink",
+  "level": "Parsing is decided for EVERY string of byte length 0, 7-12 (accept exactly the three forms with either hex case, reject all else, never panic); printing and print->parse identity for all 2^32 tags.",
+  "note": "selector syntax and dictionary keywords are not encoded (tag half of the property only; keyword side is C15)",
+ },
+ "C18": {
+  "engine": "K+M",
+  "technique": "Kani/CBMC on the default PixelDataWriter::encode (offset table) and Fragments::new on small data; z3 over the scalar MIR encoding of Fragments::new's length arithmetic (bit-vectors + f32/u64 as in the MIR)",
+  "level": "Offset table of the default encode decided for 1-3 frames with all frame sizes 0-6; Fragments::new evenness/padding/concatenation on 8 (length, size) instances with symbolic bytes; the fragment-count arithmetic "
+           "decided for ALL data lengths <= 2^26 and all 2^32 fragment sizes (no byte dropped, no panic).",
+  "note": "frame_pixel_data on objects, From<Vec<Fragments>> and the total-length attribute written by transcode are outside; Vec/iterator calls in Fragments::new are contracts recording lengths",
+ },
+ "C25": {
+  "engine": "K",
+  "technique": "bounded model checking (Kani/CBMC) of write_pdu -> read_pdu on small PDUs with symbolic fields, of strict prefixes and of strict-mode length checking on an arbitrary header",
+  "level": "Round trip, exact framing (length field == bytes that follow, all bytes consumed) and prefix => incomplete for release, abort (all sources), reject and a one-PDV P-DATA PDU with all field values symbolic; "
+           "strict mode decided for all 2^32 length fields and all valid maxima.",
+  "note": "A-ASSOCIATE-RQ/AC (string items) and the 16-bit item length overflow are not covered yet; tracing stubbed",
+ },
+ "C26": {
+  "engine": "K",
+  "technique": "bounded model checking (Kani/CBMC) of PDataWriter::write/finish from every buffer fill level, with an independent PS3.8 reading of the emitted bytes",
+  "level": "For max PDU lengths 7/10/12 and two writes of instance-chosen sizes (covering empty, partial, exactly full, overflowing) the solver shows for all payload bytes and context ids: every PDU within the maximum, "
+           "one PDV, only the final one marked last, payloads concatenate to the accepted input, and a non-empty write never reports 0 bytes.",
+  "note": "needs the cfg(kani) constructor hook; asynchronous writer harnesses and the reader are being added (listed in evidence when present)",
  },
 })
 
